@@ -1,6 +1,8 @@
 package sched
 
-import "testing"
+import (
+	"testing"
+)
 
 func TestExploreSmallProgram(t *testing.T) {
 	p := &Program{Max: 1, Threads: [][]POp{{{Kind: PushNC, Seq: 7}, {Kind: Close}}, {{Kind: PushC, Seq: 7}}}}
@@ -28,6 +30,22 @@ func TestLockWaitDetection(t *testing.T) {
 	if IsLibauditLockWait("goroutine 8 [chan receive]:\nverifharness/internal/sched.(*sched).park()\n") {
 		t.Fatal("parked worker mistaken for a lock wait")
 	}
+	// preempted while running inside Lock(): not blocked
+	if IsLibauditLockWait("goroutine 7 [runnable]:\nsync.(*Mutex).Lock(...)\ngithub.com/elastic/go-libaudit/v2.(*eventList).Put(0xc0)\n") {
+		t.Fatal("a runnable goroutine inside Lock() mistaken for a lock wait")
+	}
+}
+
+// A goroutine waiting on something else is not a lock wait (live dump).
+func TestLockWaitDetectionLive(t *testing.T) {
+	blocked := make(chan int64, 1)
+	release := make(chan struct{})
+	go func() { blocked <- goid(); <-release }()
+	id := <-blocked
+	if workerWaitsForLibauditLock(id) {
+		t.Fatal("a goroutine waiting on a channel mistaken for a lock wait")
+	}
+	close(release)
 }
 
 // A RePush program re-enters once from the first callback and once more from a callback made by a
